@@ -73,6 +73,9 @@ def units(tier):
         (["and", [["eq"], ["present"], ["eq"], ["not", ["eq"]], ["not", ["eq"]]]], "v", "cn"),
     ]):
         add(f"concrete{i}", spec, vlen=1, alen=1, concrete=[vb, at])
+    # values that look like OTHER escape syntaxes next to octets that need this one (concrete)
+    for i, vb in enumerate(["%2a)", "100%25 (x)", "%5c\\", "\\2a%2a", "&#40;(", "=28)=", "+ (+)", "a%00*", "''(", "\\\\5c", "%zz)", "\x00%00", "*%2A*"]):
+        add(f"escape_lookalike{i}", ["and", [["eq"], ["sub_iaf"], ["ext_ar"]]], vlen=1, alen=1, concrete=[vb, "cn"])
     add("history_of_failures", ["and", [["eq"], ["not", ["sub_iaf"]]]], vlen=1, alen=1, history=12000 if tier == "quick" else 40000)
     if tier == "thorough":
         for a in LEAF_KINDS[::2]:
